@@ -26,7 +26,7 @@ def gen(ctx):
                                                       if rng.random() < 0.6 else 0.7),
               model=str(rng.choice(['spherical', 'exponential'])), estimator=str(rng.choice(['matheron', 'cressie'])))
     return dict(coords=coords.tolist(), values=values.tolist(), kw=kw, unit=unit,
-                sigma=float(rng.choice([0.0, 0.0, 0.3, 1.5])), q=float(rng.choice([0, 5, 10, 25, 33, 7.5, 50, 100])),
+                sigma=float(rng.choice([0.0, 0.3, 0.3, 1.5])), q=float(rng.choice([0, 0, 0, 5, 10, 25, 33, 7.5, 50, 100])),
                 num_iter=int(rng.choice([9, 15, 30])), seed=int(rng.integers(0, 10 ** 6)),
                 evalf=str(rng.choice(['experimental', 'experimental', 'parameter', 'model'])))
 
